@@ -3,6 +3,7 @@ package chainsim
 import (
 	"bytes"
 	"fmt"
+	"sync"
 
 	"github.com/LiskHQ/lisk-engine/pkg/codec"
 	"github.com/LiskHQ/lisk-engine/pkg/labi"
@@ -38,11 +39,15 @@ func (a *ABILoop) trip(kind string, src encdec, dst encdec) error {
 	return nil
 }
 
+var abiCountMu sync.Mutex
+
 func (a *ABILoop) count(m string) error {
+	abiCountMu.Lock()
 	if a.Calls == nil {
 		a.Calls = map[string]int{}
 	}
 	a.Calls[m]++
+	abiCountMu.Unlock()
 	if a.Fail != nil {
 		return a.Fail(m)
 	}
